@@ -72,7 +72,7 @@ namespace sim
         std::unordered_set<uint64_t> set;
         size_t cap;
         bool saturated = false;
-        explicit DistinctSet(const std::string& n, size_t c = 4u << 20);
+        explicit DistinctSet(const std::string& n, size_t c = 2u << 20);
         void add(uint64_t h)
         {
             if (set.size() < cap)
